@@ -25,7 +25,7 @@ def tasks(ctx):
     # "otherwise no dispatch happens and IF is untouched" also at the boundary where a halted CPU wakes up: with IME clear nothing
     # is dispatched, with IME set the dispatch is the documented one (the wake-up clauses of the HALT lemmas)
     t = LemmaTask("lemma:halt", cc.halt_lemmas, ["(*cpu.CPU).checkInterrupts", "(*cpu.CPU).handleInterrupt", "(*cpu.CPU).next"])
-    t.keep = lambda name: "halt-wake" in name or "canary" in name
+    t.keep = lambda name: "halt-wake" in name or "halt-executed" in name or "canary" in name
     ts.append(t)
     return filter_tasks(ts)
 
